@@ -1176,7 +1176,7 @@ def gen_plan(seed: int, cfg: dict) -> dict:
                 elif y < 0.5:
                     fault_sub = {"kind": "nonexpr"}
                 elif y < 0.75:
-                    fault_sub = {"kind": "needv", "v": r.choice([7, 8, 10])}
+                    fault_sub = {"kind": "needv", "v": r.choice([5, 6, 7, 7, 8, 10])}
                 elif not want_router:
                     prog_fault = r.choice([["slotdup", r.choice([5, 77])], ["rbw"], ["manyabi", r.choice([130, 260])], ["pop", ["badtype"]], ["pragma", "<0.1.0", ["pop", ["int", 1]]]])
                 else:
@@ -1394,7 +1394,16 @@ def _compile_op(r, spec, enabled, sm_run, prev: list | None = None) -> dict:
     nf = "native" in enabled and r.random() < (0.15 if spec["target"] else 0.3)
     allow_sm = sm_run and r.random() < 0.5 and not _has_recursive_abi(spec)
     o = {"op": "compile", "p": spec["id"], "opts": gen_opts(r, spec, native_fail=nf, allow_sm=allow_sm), "obs": bool(spec["target"])}
-    if prev and not nf and r.random() < 0.3:
+    nv = [sb["fault"]["v"] for sb in spec.get("subs", []) if (sb.get("fault") or {}).get("kind") == "needv"]
+    if nv and not nf and r.random() < 0.6:
+        # a body needs version v: compile just below it (rejected while that subroutine is being
+        # lowered, after its elder siblings) and at it
+        v = r.choice([nv[0] - 1, nv[0] - 1, nv[0]])
+        if max(spec.get("minv", 2), 2) <= v <= 10:
+            o["opts"]["version"] = v
+            if v < 8 and (o["opts"].get("opt") or {}).get("fp"):
+                o["opts"]["opt"]["fp"] = None
+    elif prev and not nf and r.random() < 0.3:
         # the other side of a version boundary at which lowering changes (assert 3, callsub 4,
         # extract/cover 5, frame pointers 8, default slot optimisation 9) relative to an earlier compile
         pv = r.choice(prev)["opts"].get("version", 0)
